@@ -109,7 +109,9 @@ pub async fn connect_pair(cfg_a: Cfg, cfg_b: Cfg, netcfg: NetCfg, rng: &mut Rng)
         Delivery::Eager => None,
         _ => Some(tokio::spawn(run_scheduler(net.clone(), rng.fork(77)))),
     };
-    let (ra_, rb_) = tokio::join!(ChMux::new(cfg_a, sa, ra), ChMux::new(cfg_b, sb, rb));
+    let (ra_, rb_) = crate::clock::or_quiescent(async { tokio::join!(ChMux::new(cfg_a, sa, ra), ChMux::new(cfg_b, sb, rb)) })
+        .await
+        .ok_or_else(|| "handshake pending at quiescence".to_string())?;
     let (mux_a, client_a, listener_a) = ra_.map_err(|e| format!("ChMux::new A failed: {e}"))?;
     let (mux_b, client_b, listener_b) = rb_.map_err(|e| format!("ChMux::new B failed: {e}"))?;
     let run_a = tokio::spawn(mux_a.run());
@@ -126,7 +128,9 @@ pub async fn connect_pair(cfg_a: Cfg, cfg_b: Cfg, netcfg: NetCfg, rng: &mut Rng)
 pub async fn open_port(
     client: &Client, listener: &mut Listener,
 ) -> Result<((chmux::Sender, chmux::Receiver), (chmux::Sender, chmux::Receiver)), String> {
-    let (c, s) = tokio::join!(client.connect(), listener.accept());
+    let (c, s) = crate::clock::or_quiescent(async { tokio::join!(client.connect(), listener.accept()) })
+        .await
+        .ok_or_else(|| "connect/accept pending at quiescence".to_string())?;
     let c = c.map_err(|e| format!("connect failed: {e}"))?;
     let s = s.map_err(|e| format!("accept failed: {e}"))?.ok_or_else(|| "listener closed".to_string())?;
     Ok((c, s))
